@@ -249,15 +249,17 @@ def R4_swap_transfers(run):
     run.title("R4", "perform_swap(_v2): one owner->vault transfer of the input token's amount and one vault->owner transfer of the output token's amount, "
                     "every sided argument (mint, accounts, program, hooks, amount) on the same side, input side = A iff a_to_b; v2 two-hop: input inflow, vault->vault, output outflow")
     facts = run.facts
-    for path, dep, wd in (("util::swap_utils::perform_swap", "util::token::transfer_from_owner_to_vault", "util::token::transfer_from_vault_to_owner"),
-                          ("util::v2::swap_utils::perform_swap_v2", "util::v2::token::transfer_from_owner_to_vault_v2", "util::v2::token::transfer_from_vault_to_owner_v2")):
+    # (the private helpers perform_swap / perform_swap_v2 are always analysed inlined into their callers: analysis/canon.py ALWAYS_INLINE;
+    #  the direction flag there is the wrapper's is_token_fee_in_a)
+    for path, dep, wd in (("util::swap_utils::update_and_swap_whirlpool", "util::token::transfer_from_owner_to_vault", "util::token::transfer_from_vault_to_owner"),
+                          ("util::v2::swap_utils::update_and_swap_whirlpool_v2", "util::v2::token::transfer_from_owner_to_vault_v2", "util::v2::token::transfer_from_vault_to_owner_v2")):
         fn = facts.need_fn(path)
         run.touch(fn)
+        short = "perform_swap_v2" if path.endswith("_v2") else "perform_swap"
         for ab in (False, True):
-            ctx = {"a_to_b": ab}
+            ctx = {"is_token_fee_in_a": ab}
             d = calls_to(fn, lambda p: p == dep, ctx=ctx)
             w = calls_to(fn, lambda p: p == wd, ctx=ctx)
-            short = path.rsplit("::", 1)[-1]
             ok = len(d) == 1 and len(w) == 1
             if ok:
                 ds = {side_of(a) for a in d[0][2]} - {None}
@@ -276,6 +278,11 @@ def R4_swap_transfers(run):
                 # withdrawal is signed by the pool passed in
                 run.check("R4", "%s-pool[a_to_b=%d]" % (short, ab), is_param(w[0][2][0], "whirlpool") and is_param(d[0][2][0], "token_authority"),
                           "%s: deposit authority / withdrawal pool are not (token_authority, whirlpool)" % path, loc=fn.loc(), detail="deposit by token_authority, withdrawal by the pool")
+                # the amounts moved are the swap result's amounts of those sides
+                amts = [x for x in (d[0][2][-1], w[0][2][-2 if path.endswith("_v2") else -1])]
+                okw = all(strip(x)[0] == "field" and strip(x)[2] in ("amount_a", "amount_b") and is_param(strip(x)[1], "swap_update") for x in amts)
+                run.check("R4", "wrapper@%s[a_to_b=%d]" % (path.rsplit("::", 1)[-1], ab), okw, "%s does not move swap_update.amount_a / amount_b" % path, loc=fn.loc(),
+                          detail="amounts: swap_update.amount_%s in, swap_update.amount_%s out" % (want_d, want_w))
             else:
                 run.bad("R4", "%s[a_to_b=%d]" % (short, ab), "%s(a_to_b=%s) performs %d deposits and %d withdrawals, expected one each" % (path, ab, len(d), len(w)), loc=fn.loc())
             # both results are propagated
@@ -283,18 +290,6 @@ def R4_swap_transfers(run):
                 mp, why = cfg.must_pass_call(fn, bi) if t["d"]["l"] != 0 else (True, "")
                 run.check("R4", "%s-result:%s[a_to_b=%d]" % (short, callee_path(t).rsplit("::", 1)[-1], ab), mp or cfg.result_ok_edge(fn, bi) is not None,
                           "%s drops the result of %s" % (path, callee_path(t)), loc=fn.loc(t["l"]), detail="`?`")
-    # wrappers pass swap_update.amount_a / amount_b and the same flag
-    for path, callee in (("util::swap_utils::update_and_swap_whirlpool", "util::swap_utils::perform_swap"), ("util::v2::swap_utils::update_and_swap_whirlpool_v2", "util::v2::swap_utils::perform_swap_v2")):
-        fn = facts.need_fn(path)
-        cs = calls_to(fn, lambda p: p == callee)
-        ok = len(cs) == 1
-        if ok:
-            a = cs[0][2]
-            mm = argname_mismatches(facts, fn, cs[0][0], cs[0][1], a)
-            amt = [x for x in a if arg_name(x) in ("amount_a", "amount_b")]
-            ok = not mm and [arg_name(x) for x in amt] == ["amount_a", "amount_b"] and all(is_param(strip(x)[1], "swap_update") for x in amt) and any(is_param(x, "is_token_fee_in_a") for x in a)
-        run.check("R4", "wrapper@" + path.rsplit("::", 1)[-1], ok, "%s does not forward (swap_update.amount_a, swap_update.amount_b, is_token_fee_in_a) and its accounts unchanged" % path, loc=fn.loc(),
-                  detail="forwards accounts, swap_update.amount_a/b, direction flag")
     # v2 two-hop
     fn = facts.need_fn("util::v2::swap_utils::update_and_two_hop_swap_whirlpool_v2")
     run.touch(fn)
